@@ -106,11 +106,26 @@ package momentum
 //@ use stochD_range(highs, lows, closings, s.Min.Period, s.Sma.Period, _)
 //@ ensures[C15] "d-range" forall k :: 0 <= k && k < len(result1) && (forall j :: k <= j && j < k + s.Sma.Period ==> stochok(highs, lows, closings, s.Min.Period, j)) ==> 0 <= result1[k] && result1[k] <= 100
 
+// Stochastic RSI = (RSI - lowest RSI) / (highest RSI - lowest RSI) over the window ending at the bar
+//@ stream stochRsiS(c stream, P int, W int)[k] = (rsiS(c, P)[k + W - 1] - wminS(rsiS(c, P), k, k + W)) / (wmaxS(rsiS(c, P), k, k + W) - wminS(rsiS(c, P), k, k + W))
+//@ lemma stochRsi_range(c stream, P int, W int, k int)
+//@ requires[C15] W >= 1 && wminS(rsiS(c, P), k, k + W) < wmaxS(rsiS(c, P), k, k + W)
+//@ ensures[C15] 0 <= stochRsiS(c, P, W)[k] && stochRsiS(c, P, W)[k] <= 1
+//@ use wmax_ge(rsiS(c, P), k, k + W, k + W - 1)
+//@ use wmin_le(rsiS(c, P), k, k + W, k + W - 1)
+//@ use ratio_unit(rsiS(c, P)[k + W - 1], wminS(rsiS(c, P), k, k + W), wmaxS(rsiS(c, P), k, k + W))
 //@ func StochasticRsi.Compute
 //@ requires s.Rsi.Rma.Period >= 1 && s.Min.Period >= 1 && s.Max.Period == s.Min.Period && consumed(closings) == 0
 //@ ensures[C02] len(result) == max(0, len(closings) - (s.IdlePeriod()))
 //@ ensures[C03] consumed(closings) == len(closings) && closed(result)
 //@ ensures[C04] forall kk :: 0 <= kk && kk < len(result) ==> hor(result, kk) <= hor(closings, kk + (s.IdlePeriod()))
+//@ step[C01,C15] "rsi" forall j :: 0 <= j && j < len(rsisSplice[1]) ==> rsisSplice[1][j] == rsiS(closings, s.Rsi.Rma.Period)[j] && rsisSplice[2][j] == rsiS(closings, s.Rsi.Rma.Period)[j]
+//@ use wmin_cong(rsisSplice[1], rsiS(closings, s.Rsi.Rma.Period), _, _)
+//@ use wmax_cong(rsisSplice[2], rsiS(closings, s.Rsi.Rma.Period), _, _)
+//@ step[C01,C15] "formula" forall k :: 0 <= k && k < len(result) ==> result[k] == stochRsiS(closings, s.Rsi.Rma.Period, s.Min.Period)[k]
+//@ ensures[C01] "formula" forall k :: 0 <= k && k < len(result) ==> result[k] == stochRsiS(closings, s.Rsi.Rma.Period, s.Min.Period)[k]
+//@ use stochRsi_range(closings, s.Rsi.Rma.Period, s.Min.Period, _)
+//@ ensures[C15] "range" forall k :: 0 <= k && k < len(result) && wminS(rsiS(closings, s.Rsi.Rma.Period), k, k + s.Min.Period) < wmaxS(rsiS(closings, s.Rsi.Rma.Period), k, k + s.Min.Period) ==> 0 <= result[k] && result[k] <= 1
 
 //@ func WilliamsR.Compute
 //@ requires w.Max.Period >= 1 && w.Min.Period == w.Max.Period && consumed(highs) == 0 && consumed(lows) == 0 && consumed(closings) == 0 && len(highs) == len(lows) && len(highs) == len(closings)
